@@ -23,6 +23,9 @@ const (
 	valueWebsocket            = "websocket"
 )
 
+// errNilPanic 代替 panic(nil) 向上重新抛出，使外层保护也能识别。
+var errNilPanic = errors.New("panic called with nil argument")
+
 // TimeoutHandler 返回一个超时控制中间件。
 // 如果客户端关闭请求，状态码将记录为 499。
 // 注意：计时在服务端取消，也会被记录为 499.
@@ -71,12 +74,21 @@ func (h *timeoutHandler) ServeHTTP(w http.ResponseWriter, r *http.Request) {
 	panicChan := make(chan interface{}, 1)
 
 	go func() {
+		// 用完成标记判断是否发生了 panic（panic(nil) 时 recover() 返回 nil）
+		finished := false
 		defer func() {
-			if p := recover(); p != nil {
-				panicChan <- p
+			if finished {
+				return
 			}
+
+			p := recover()
+			if p == nil {
+				p = errNilPanic
+			}
+			panicChan <- p
 		}()
 		h.handler.ServeHTTP(tw, r)
+		finished = true
 		close(done)
 	}()
 
